@@ -137,7 +137,7 @@ func runProviderInBubble(spec ProvSpec, stats *Stats, res *RunResult) {
 	if pc != nil {
 		fleet = pc.Kind == "fleet"
 		if pc.Kind == "fleet" {
-			size, min, max = 2, 0, 2+pc.Size*(1+pc.Repeat)+s.Intn(3)
+			size, min, max = 2, 0, 2+pc.Size*(6+pc.Repeat)+s.Intn(3)
 		} else {
 			size, min = pc.Desired, pc.Min
 			max = size + 5
@@ -814,7 +814,7 @@ func (p *provRun) directed(pc *ProvCase) {
 		case pc.Failure == "never-ready":
 			w.cfg.Calm = false
 			w.cfg.ForceFault["never-ready"] = "all"
-		case pc.Failure == "attach", pc.Failure == "attach-then-over-max":
+		case pc.Failure == "attach", pc.Failure == "attach-then-over-max", pc.Failure == "alternating":
 			w.cfg.ForceFault[key(OpAttach, pc.K)] = FErrBefore
 		case pc.Failure == "attach-after":
 			w.cfg.ForceFault[key(OpAttach, pc.K)] = FErrAfter
@@ -831,6 +831,18 @@ func (p *provRun) directed(pc *ProvCase) {
 			w.cfg.ForceFault[key(OpTerminateEC2, pc.K2)] = FErrBefore
 		}
 		p.opIncrease(int64(pc.Size))
+		if pc.Failure == "alternating" {
+			// fail, ok, fail, ok, fail: never three CONSECUTIVE failures, so the process must not exit
+			for r := 1; r < 5 && len(p.res.Violations) == 0 && !p.exited; r++ {
+				p.opIdx++
+				p.opRefresh()
+				if r%2 == 0 {
+					w.cfg.ForceFault[key(OpAttach, w.occ[p.g.Name+"/"+OpAttach]+1)] = FErrBefore
+				}
+				p.opIdx++
+				p.opIncrease(int64(pc.Size))
+			}
+		}
 		if pc.Failure == "attach-then-over-max" && len(p.res.Violations) == 0 && !p.exited {
 			// the next refresh answer lacks the group (the provider keeps its cache), then a scale-up that
 			// exceeds the ASG maximum given the batches that WERE attached: must be rejected without a write
